@@ -23,10 +23,11 @@ PROPERTY = "C10"
 RULE = ("one generated document set (1..3 containers x 1..3 layers, colliding local ids) loaded through "
         "Database.add_odx_file/refresh in strict mode; every reference site compared with the model's expected "
         "uid; negative sets must raise; then retarget_snrefs to one layer and compare again.  non-trivial = "
-        ">=2 documents carry a local id that is referenced, or a DOCREF / IMPORT-REF / inherited SNREF is "
+        ">=2 documents (or two sibling layers of one container) carry a local id that is referenced, or a DOCREF / IMPORT-REF / inherited SNREF is "
         "present, or the set is negative; distinct = digest of the document-set IR")
 ASSUMPTIONS = [
-    "ODX ids are unique within one XML document; document and layer short names are unique in the set",
+    "ODX ids are unique within one layer fragment and, except in the class 'sibling-id-reuse', within one XML document; document and layer short names are unique in the set",
+    "class sibling-id-reuse: sibling layers of one container re-use local ids for layer-local objects; a reference without DOCREF inside a layer names that layer's own object (innermost fragment first); what such an id names from a sibling that does not carry it or through a DOCREF to the container fragment is not asserted",
     "a reference without DOCREF inside a layer may name an object of the layer, of a layer it imports, or of the enclosing container document; when an imported id collides with an id of the container either object is accepted",
     "IMPORT-REFs extend the importing layer only and are not transitive; an id that a DOCREF'ed layer merely imports is not carried by that layer's fragment",
     "short-name references of an object are resolved in the view (local objects override inherited ones) of the layer that owns the object; after retarget_snrefs(db, X) those owned by X and its transitive parents follow X's view",
@@ -42,7 +43,8 @@ MUST_HIT = [
     "rk:DEFAULT-CASE/STRUCTURE-REF", "rk:DEFAULT-CASE/STRUCTURE-SNREF", "rk:KEY-DOP-REF", "rk:TABLE-ROW/STRUCTURE-REF",
     "rk:TABLE-ROW/STRUCTURE-SNREF", "rk:TABLE-ROW/DATA-OBJECT-PROP-REF", "rk:TABLE-ROW/DATA-OBJECT-PROP-SNREF",
     "doc:none", "doc:LAYER", "doc:CONTAINER", "via:import", "via:container", "id-collision-referenced",
-    "snref-inherited", "positive-loaded", "negative", "retarget", "retarget-rebinds", "retarget-rebinds-grandparent",
+    "snref-inherited", "sibling-id-reuse", "sibling-id-reuse:own-object-without-docref",
+    "sibling-id-reuse:docref-to-layer", "positive-loaded", "negative", "retarget", "retarget-rebinds", "retarget-rebinds-grandparent",
     "bad:id-not-visible", "bad:id-not-in-docref-fragment", "bad:unknown-docref-fragment", "bad:name-not-visible",
     "bad:ambiguous-local-name", "bad:ambiguous-parameter-name", "bad:name-not-in-parameter-list",
     "tag:other-document", "tag:sibling-import", "tag:docref-to-importer", "tag:wrong-docref", "tag:dropped-docref",
@@ -221,6 +223,12 @@ def evaluate(case):
                 feats.add("docref")
             if s["status"] == "ok":
                 classes.add("via:" + str(s["via"]))
+                if s.get("sibling_reuse") and s["doc"] == "none" and s["via"] == "own":
+                    # R2b: no DOCREF, the id is carried by the referring layer AND by a sibling layer
+                    classes.add("sibling-id-reuse:own-object-without-docref")
+                    feats.add("sibling-reuse")
+                elif s.get("sibling_reuse") and s["doc"] == "LAYER":
+                    classes.add("sibling-id-reuse:docref-to-layer")
         elif s.get("inherited"):
             classes.add("snref-inherited")
             feats.add("inherited-snref")
@@ -232,6 +240,8 @@ def evaluate(case):
             classes.add("tag:" + s["tag"])
         if s["rk"] == "IMPORT-REF":
             feats.add("import")
+    if su["sibling_reuse"]:
+        classes.add("sibling-id-reuse")
     if su["collide"]:
         classes.add("id-collision-referenced")
         feats.add("collision")
@@ -364,7 +374,11 @@ def run_shard(spec, seed, tier):
     mode = {0: True, 1: False}.get(idx % 4, None)
     n = 220 if tier == "quick" else 2000
 
-    strat = st.randoms(use_true_random=False).map(lambda r: M.gen_case(r, negative=mode, big=(tier != "quick")))
+    # the positive-only shards always use the class "sibling-id-reuse" (sibling layers of one
+    # container re-use local ids), the others in 35 % of the sets
+    reuse = True if idx % 4 == 1 else None
+    strat = st.randoms(use_true_random=False).map(
+        lambda r: M.gen_case(r, negative=mode, big=(tier != "quick"), reuse=reuse))
 
     def body(case):
         fails, classes, nontrivial = evaluate(case)
